@@ -1,18 +1,24 @@
 #!/bin/bash
-# bin/regress_controls.sh   run every check (quick) against every negative control under controls/
-# (scratch worktree, /repo untouched) and write controls/RESULTS.tsv: <control> <check> <verdict>
+# bin/regress_controls.sh [control-glob]   run every check (quick) against every negative control
+# under controls/ (scratch worktree, /repo untouched) and write controls/RESULTS.tsv:
+#   <control> <check> <verdict: silent|ALARM|error>
+# env CHECKS="C01 C07 ..." restricts the checks; rows of this run replace rows of the same
+# (control, check), all other rows are kept.
 cd "$(dirname "$0")/.."
 export SLOT="${SLOT:-c}"
 OUT=controls/RESULTS.tsv
+CHECKS="${CHECKS:-C01 C02 C03 C04 C05 C06 C07 C08 C09 C10 C11 C12 C13 C14 C15 C16 C17 C18 C19 C20}"
 : > "$OUT.tmp"
-for d in controls/*/; do
+for d in controls/${1:-*}/; do
   n=$(basename "$d"); [ -f "$d/refactor.diff" ] || continue
-  res=$(LINES_MAX=2 bin/try_patch.sh "$d/refactor.diff" C01 C02 C03 C04 C05 C06 C07 C08 C09 C10 C11 C12 C13 C14 C15 C16 C17 C18 C19 C20 2>&1)
-  for i in 01 02 03 04 05 06 07 08 09 10 11 12 13 14 15 16 17 18 19 20; do
-    if echo "$res" | grep -q "^OK C$i "; then v=silent; elif echo "$res" | grep -q "^VIOLATION property=C$i"; then v=ALARM; else v=error; fi
-    printf "%s\tC%s\t%s\n" "$n" "$i" "$v" >> "$OUT.tmp"
+  res=$(LINES_MAX=2 bin/try_patch.sh "$d/refactor.diff" $CHECKS 2>&1)
+  for c in $CHECKS; do
+    if echo "$res" | grep -q "^OK $c "; then v=silent; elif echo "$res" | grep -q "^VIOLATION property=$c"; then v=ALARM; else v=error; fi
+    printf "%s\t%s\t%s\n" "$n" "$c" "$v" >> "$OUT.tmp"
   done
-  echo "$n: $(grep -c "^OK " <<< "$res") silent"
+  echo "$n: $(grep -c "^OK " <<< "$res") silent of $(wc -w <<< "$CHECKS")"
 done
-mv "$OUT.tmp" "$OUT"
+touch "$OUT"
+awk -F'\t' 'NR==FNR { new[$1 FS $2]=1; next } !(($1 FS $2) in new) { print }' "$OUT.tmp" "$OUT" > "$OUT.keep"
+cat "$OUT.keep" "$OUT.tmp" | sort > "$OUT"; rm -f "$OUT.keep" "$OUT.tmp"
 git -C /repo worktree remove --force /tmp/gbmc_try_$SLOT/repo 2>/dev/null; rm -rf /tmp/gbmc_try_$SLOT
